@@ -424,6 +424,28 @@ def expect_on_all_paths(F, pred, what):
     return _call_on_all_paths_from_site(F, what, None, None, pred)
 
 
+def expect_on_all_paths_from_entry(F, pred, what):
+    """an instruction satisfying pred(F, inst) lies on every path from the function entry to a ret"""
+    good = set(i['id'] for i in _reach_insts(F) if i['op'] != 'dbgvalue' and pred(F, i))
+    bid = {b['id']: b for b in F.blocks}
+    seen, st = set(), [F.blocks[0]['id']]
+    while st:
+        b = st.pop()
+        if b in seen:
+            continue
+        seen.add(b)
+        cut = False
+        for i in bid[b]['insts']:
+            if i['id'] in good:
+                cut = True
+                break
+            if i['op'] == 'ret':
+                return False, 'a ret (line %s) is reached from the entry without %s' % (i.get('line'), what)
+        if not cut:
+            st.extend(F.succ[b])
+    return True, 'every path from the entry to a ret passes through %s' % what
+
+
 def _call_on_all_paths_from_site(F, callee, argidx, argpred, ipred=None):
     good = set()
     for i in _reach_insts(F):
